@@ -180,7 +180,10 @@ func snappyWrite(w compress.Writer, payload []byte, split bool) error {
 	return w.Close()
 }
 
-func snappyHistory(c *ctx, ids []int64, split bool) {
+// damage > 0: before every chunk after the first one the reused reader is first handed a damaged copy of the previous
+// chunk (1: last byte cut off, 2: one byte in the middle flipped) - whatever it answers for that, the intact chunk that
+// follows has to decode (one bad message must not poison the reader for the messages after it).
+func snappyHistory(c *ctx, ids []int64, split bool, damage int) {
 	w := compress.NewSnappyWriter()
 	r := compress.NewSnappyReader()
 	// blocks handed out by Bytes() are kept by the caller (replica queues them) while the writer is reused:
@@ -208,6 +211,16 @@ func snappyHistory(c *ctx, ids []int64, split bool) {
 		}
 		comp := w.Bytes() // also resets the writer for the next chunk
 		kept = append(kept, comp)
+		if damage > 0 && step > 0 && len(kept[step-1]) > 2 {
+			bad := append([]byte(nil), kept[step-1]...)
+			if damage == 1 {
+				bad = bad[:len(bad)-1]
+			} else {
+				bad[len(bad)/2] ^= 0x5a
+			}
+			_, _ = r.Uncompress(bad)
+			scen, clause = fmt.Sprintf("reused after a damaged chunk (kind %d)", damage), "reuse"
+		}
 		got, err := r.Uncompress(comp)
 		if err != nil {
 			c.viol(clause, scen, "snappyReader.Uncompress", "step %d (%s): %v", step, snappyNames[id], err)
@@ -547,7 +560,9 @@ func registerMisc() {
 				c.text += " <" + snappyNames[id] + ">"
 			}
 			c.nontrivial = len(c.p) >= 3
-			snappyHistory(c, c.p[1:], c.p[0] == 1)
+			snappyHistory(c, c.p[1:], c.p[0] == 1, 0)
+			snappyHistory(c, c.p[1:], c.p[0] == 1, 1)
+			snappyHistory(c, c.p[1:], c.p[0] == 1, 2)
 		}})
 
 	register(family{name: "stream.ops",
